@@ -70,6 +70,21 @@ static void gen_vtk_faults(int seedset, const std::string& vtk, const std::strin
         ls = le + 1; }
     for (size_t off = 0; off < vtk.size(); off += (thorough ? 1 : 8)) { Case c; c.seedset = seedset; c.file = "vtk"; c.kind = "truncated"; c.where = section_at(vtk, off); c.xml = xml; c.vtk = vtk.substr(0, off); out.push_back(c); }
 }
+
+// degenerate geometry: every point gets the same value in one, two or all three coordinates (a flat cell, a line, a point), near and far from the origin.  The files are well formed;
+// the surfaces enclose nothing.  Judged like every other case: no crash, no sanitizer report, no hang before start-up is over.
+static void gen_flat(int seedset, const std::string& vtk, const std::string& xml, std::vector<Case>& out) {
+    size_t kw = vtk.find("POINTS"); if (kw == std::string::npos) return; auto head = tokens_of(vtk, kw); if (head.size() < 3) return; const long np = atol(vtk.substr(head[1].b, head[1].e - head[1].b).c_str()); if ((long)head.size() < 3 + 3 * np) return;
+    for (int mask = 1; mask < 8; mask++) for (const char* c : {"0", "5", "-5", "1048576"}) { std::string v = vtk; for (long i = 3 * np - 1; i >= 0; i--) if (mask >> (i % 3) & 1) { const TokSpan& t = head[3 + i]; v = v.substr(0, t.b) + c + v.substr(t.e); }
+        Case cs; cs.seedset = seedset; cs.file = "vtk"; cs.kind = std::string("all-points-share-the-value-") + c; cs.where = std::string("coordinates-") + (mask & 1 ? "x" : "") + (mask & 2 ? "y" : "") + (mask & 4 ? "z" : ""); cs.xml = xml; cs.vtk = v; out.push_back(cs); } }
+// very long tokens: a token replaced by a run of N digits / letters / dots.  Parsers that recurse or allocate per character of a token show it here.
+static void gen_long_tokens(int seedset, const std::string& vtk, const std::string& xml, bool thorough, std::vector<Case>& out) {
+    auto toks = tokens_of(vtk, 0); std::vector<long> NS = {1500, 20000}; if (thorough) NS.push_back(300000);
+    for (size_t ti = 0; ti < toks.size(); ti += (thorough ? 1 : 3)) for (long n : NS) for (char ch : {'1', 'a', '.'}) { if (!thorough && ch == '.' && n != 20000) continue; const TokSpan& t = toks[ti]; Case c; c.seedset = seedset; c.file = "vtk"; c.kind = "token-replaced-by-" + std::to_string(n) + "-times-" + std::string(1, ch); c.where = section_at(vtk, t.b) + "#" + std::to_string(ti); c.xml = xml; c.vtk = vtk.substr(0, t.b) + std::string((size_t)n, ch) + vtk.substr(t.e); out.push_back(c); }
+    // the same in the text of every leaf element of the parameter file
+    size_t p = 0; int leaf_i = 0; while ((p = xml.find('<', p)) != std::string::npos) { if (xml[p + 1] == '/' || xml[p + 1] == '?') { p++; continue; } size_t q = xml.find('>', p); std::string tag = xml.substr(p + 1, q - p - 1); std::string close = "</" + tag + ">"; size_t r = xml.find(close, q); if (r == std::string::npos) { p = q; continue; }
+        std::string inner = xml.substr(q + 1, r - q - 1); if (inner.find('<') == std::string::npos && tag != "output_mesh_folder_path") { if (thorough || leaf_i % 3 == 0) for (long n : NS) for (char ch : {'1', 'a'}) { Case c; c.seedset = seedset; c.file = "xml"; c.kind = "element-text-replaced-by-" + std::to_string(n) + "-times-" + std::string(1, ch); c.where = tag; c.vtk = vtk; c.xml = xml.substr(0, q + 1) + std::string((size_t)n, ch) + xml.substr(r); out.push_back(c); } leaf_i++; }
+        p = q; } }
 static void gen_xml_faults(int seedset, const std::string& vtk, const std::string& xml, bool thorough, std::vector<Case>& out) {
     // elements with text content: <tag>text</tag>
     size_t p = 0; while ((p = xml.find('<', p)) != std::string::npos) { if (xml[p + 1] == '/' || xml[p + 1] == '?') { p++; continue; } size_t q = xml.find('>', p); std::string tag = xml.substr(p + 1, q - p - 1); std::string close = "</" + tag + ">"; size_t r = xml.find(close, q);
@@ -133,6 +148,7 @@ static void explore(Result& R) {
     cases.push_back({0, "none", "valid-seed", "-", v1, x1}); cases.push_back({1, "none", "valid-seed", "-", v2, x2});
     gen_vtk_faults(0, v1, x1, th, cases); gen_xml_faults(0, v1, x1, th, cases); gen_vtk_faults(1, v2, x2, th, cases, th ? 1 : 3 /* the polygonal seed runs the (slow under ASan) initial triangulation: every third token in the quick tier */);
     if (th) gen_xml_faults(1, v2, x2, false, cases);
+    gen_flat(0, v1, x1, cases); gen_flat(1, v2, x2, cases); gen_long_tokens(0, v1, x1, th, cases); if (th) gen_long_tokens(1, v2, x2, false, cases);
     if (th) { // 2 deviations over a reduced alphabet: every pair of (count token of a section header, menu value)
         std::vector<Case> singles; gen_vtk_faults(0, v1, x1, false, singles); std::vector<Case> cnt; for (auto& c : singles) if (c.kind.rfind("token-replaced-by-", 0) == 0 && (c.kind == "token-replaced-by-0" || c.kind == "token-replaced-by-4294967295" || c.kind == "token-replaced-by--1")) cnt.push_back(c);
         for (size_t i = 0; i < cnt.size(); i += 7) { std::vector<Case> second; gen_vtk_faults(0, cnt[i].vtk, x1, false, second); for (size_t j = 0; j < second.size(); j += 13) { Case c = second[j]; c.kind = cnt[i].kind + "+" + c.kind; cases.push_back(c); } } }
